@@ -52,7 +52,7 @@ def gen_cases(tier, seed):
     out = []
     for i in range(n):
         s = env.seed_for(seed, ID, tier, i)
-        r = random.Random(s)
+        r = random.Random(env.seed_for(s, "descriptor"))  # independent of the stream run_case derives from the same seed
         out.append({"seed": s, "observer": r.choice(["console", "html", "html_path", "ipython"]), "mode": r.choice(["direct", "threaded"]),
                     "nscopes": r.choice([1, 2, 3, 5, 8]), "nthreads": r.choice([1, 1, 2, 4]), "style": r.choice(["same_unorderable", "mixed", "strings", "any"]),
                     "exceptions": r.choice([0, 0, 1, 3, 150, 200]) if r.random() < 0.5 else 0})
